@@ -129,13 +129,19 @@ func round(s *slip.Scope, f slip.Object, args slip.List, depth int) slip.Values 
 		}
 		zn := (*big.Float)(tn)
 		zd := (*big.Float)(div.(*slip.LongFloat))
+		// The absolute values go into new values, the arguments must not
+		// change.
+		var (
+			an big.Float
+			ad big.Float
+		)
 		ns := zn.Sign()
 		if ns < 0 {
-			zn = zn.Abs(zn)
+			zn = an.Abs(zn)
 		}
 		ds := zd.Sign()
 		if ds < 0 {
-			zd = zd.Abs(zd)
+			zd = ad.Abs(zd)
 		}
 		_ = zq.Quo(zn, zd)
 		var (
@@ -178,16 +184,20 @@ func round(s *slip.Scope, f slip.Object, args slip.List, depth int) slip.Values 
 			zp big.Int
 			zr big.Int
 			zq big.Int
+			an big.Int
+			ad big.Int
 		)
 		zn := (*big.Int)(tn)
 		zd := (*big.Int)(div.(*slip.Bignum))
+		// The absolute values go into new values, the arguments must not
+		// change.
 		ns := zn.Sign()
 		if ns < 0 {
-			zn = zn.Abs(zn)
+			zn = an.Abs(zn)
 		}
 		ds := zd.Sign()
 		if ds < 0 {
-			zd = zd.Abs(zd)
+			zd = ad.Abs(zd)
 		}
 		_, _ = zq.QuoRem(zn, zd, &zr)
 		_ = zp.Mul(&zq, zd)
@@ -224,16 +234,20 @@ func round(s *slip.Scope, f slip.Object, args slip.List, depth int) slip.Values 
 			zq big.Rat
 			bi big.Int
 			zb big.Rat
+			an big.Rat
+			ad big.Rat
 		)
 		zn := (*big.Rat)(tn)
 		zd := (*big.Rat)(div.(*slip.Ratio))
+		// The absolute values go into new values, the arguments must not
+		// change.
 		ns := zn.Sign()
 		if ns < 0 {
-			zn = zn.Abs(zn)
+			zn = an.Abs(zn)
 		}
 		ds := zd.Sign()
 		if ds < 0 {
-			zd = zd.Abs(zd)
+			zd = ad.Abs(zd)
 		}
 		_ = zq.Quo(zn, zd)
 		_ = bi.Quo(zq.Num(), zq.Denom())
